@@ -429,6 +429,17 @@ def rule_a(chk, wr, buf, is_file):
             p2 = Q.escapes(g, [h], lambda n: n in closes, avoid_edge=contradicts, exits=('exit',))
             chk.ob('a', wr.ref, f'errno {errno} (fatal): the endpoint is closed or its output abandoned (buffer cleared), so that nothing is sent after the lost payload',
                    p2 is None and bool(closes), loc(wr, h.ast), path=pat.path_lines(p2, h) if p2 else None, discr=f'errno-class=FATAL-closes:{errno}')
+    if not is_file:
+        # the TLS layer says "want write" (or "want read", during a renegotiation) where a plain socket says EAGAIN: nothing was sent, the payload goes back
+        want = [e for n in g.nodes if n.kind == 'test' for e in n.succ
+                if (lambda fc: fc is not None and fc[1] in ('==', 'in') and 'SSL_ERROR_WANT_WRITE' in fc[2])(pat.compare_fact(n.ast, e.kind))]
+        okw = bool(want) and all(e.dst in requeue_whole or Q.escapes(g, [e.dst], lambda n: n in requeue_whole, exits=('exit',), exc=()) is None for e in want)
+        for e in want:
+            seen_, _ = Q.search([e.dst], exc=())
+            if any(x in seen_ or x is e.dst for x in errors):
+                okw = False
+        chk.ob('a', wr.ref, 'a TLS write that wants to be repeated (SSLWantWrite / SSLWantRead) is transient: the whole payload is put back, no error, nothing dropped', okw,
+               loc(wr, h.ast), detail=f'{len(want)} test edge(s) recognise SSL_ERROR_WANT_WRITE', discr='tls-want-transient')
 
 
 _ERRNO_ALIASES = {}     # exception variable -> locals holding its errno (filled per write routine)
